@@ -23,7 +23,10 @@ REPO = os.environ.get("VERIF_REPO", "/repo")
 BUILD = os.environ.get("VERIF_BUILD", os.path.join(VERIF, "build"))
 COQ = os.path.join(VERIF, "coq")
 OUT = os.path.join(VERIF, "out")          # replay files, logs (git-ignored)
-EVID = os.environ.get("VERIF_EVID", os.path.join(VERIF, "evidence"))
+# evidence/<id>.json describes a run against /repo itself; a run against another tree (VERIF_REPO: a scratch worktree with a
+# seeded change or a proposed fix) writes its record under out/ so that it never replaces the registered evidence
+EVID = os.environ.get("VERIF_EVID", os.path.join(VERIF, "evidence") if os.path.realpath(REPO) == "/repo"
+                      else os.path.join(VERIF, "out", "evidence-other-tree"))
 NCPU = os.cpu_count() or 4
 
 LIB_FILES = """util ringbuffer ringbuffer_helper unix array hdb map hashtable skiplist trie
@@ -572,7 +575,9 @@ def run_cases(exe, cases, env=None, timeout=300, wrapper=None, max_crashes=8):
         text = "".join("# case %d\n%s" % (i, cases[i] if cases[i].endswith("\n") or not cases[i] else cases[i] + "\n")
                        for i in range(start, len(cases)))
         cmd = (wrapper or []) + [exe]
+        t_batch = time.time()
         rc, out, err = sh2(cmd, timeout=timeout, env=e, stdin=text.encode())
+        t_batch = time.time() - t_batch
         cur = None
         seen = []
         for line in out.split("\n"):
@@ -595,7 +600,8 @@ def run_cases(exe, cases, env=None, timeout=300, wrapper=None, max_crashes=8):
             if results[i] is None:
                 results[i] = ([], None)
         start = last + 1
-        if rc in (124, -14, 142):      # timed out, or killed by the harness' own alarm(): a HANG (an abort is cheap)
+        if rc in (124, -14, 142) or t_batch > 15:   # timed out, killed by the harness' own alarm(), or slow to die: a HANG
+            # (an abort is cheap and is not counted)
             ncrash += 1
             if rc == 124:
                 timeout = min(timeout, 60)   # the harness has no alarm of its own: do not pay the full timeout again
